@@ -15,7 +15,7 @@ UNITS = {
   'inode': dict(FG, wrapper='w_inode.cpp'),                                         # input_node<int>
   'chain': dict(FG, wrapper='w_chain.cpp'),                                         # queue_node<int> -> function_node<int,int,rejecting>
 }
-FS = ['--max-field-sensitivity-array-size', '600', '--object-bits', '12', '--no-sat-preprocessor']
+FS = ['--max-field-sensitivity-array-size', '600', '--object-bits', '12', '--sat-solver', 'cadical']   # minisat2 (default) is heavy-tailed on these instances: 0.1 s .. > 15 min for 30k clauses
 COMMON = dict(fail_over_unwind=True, cbmc=['--unwind', '40'] + FS, native_cflags=['-fno-sanitize=null'], timeout=900, thorough_override={'timeout': 3600})
 
 # ---------------------------------------------------------------- function_node (h_fnode.c)
@@ -36,7 +36,7 @@ FQ_QUICK = [
   S(1, '1,1,8,1,8', FIFO=1), S(1, '1,1,1,8,8', FIFO=1, NESTB=1), S(2, '1,1,1,8,8,1'), S(0, '1,1,1,8,8,1'), S(2, '1,1,8,1,1,8'),
   S(1, '1,1,1,2,5,8', FIFO=1), S(2, '6,1,1,8,7,1'), C(1, '1,2,1,9,1,2', '0,1,2', NSUCC=2, FLIPS='1,2', FIFO=1), S(1, '1,1,8,1,8', EXTIN=1, FIFO=1),
 ]
-FQ_THOROUGH = FQ_QUICK + [fifo(S(c, o)) for c in (1, 0) for o in seqs18(6, 3, 4)] + [S(2, o) for o in seqs123(6, 3, 4)] + [S(2, o) for o in seqs18(5, 3, 3)] + \
+FQ_THOROUGH = FQ_QUICK + [fifo(S(c, o)) for c in (1, 0) for o in seqs18(6, 3, 4)] + [S(2, o) for o in seqs123(6, 3, 4)] + [S(2, o) for o in seqs18(6, 3, 4)] + \
   [fifo(S(c, o, NESTB=b, NESTS=s)) for c, o in ((1, '1,1,8,1,8'), (1, '1,8,1,8'), (2, '1,1,2,1,3'), (2, '1,8,1,8')) for b, s in ((1, 0), (0, 1), (2, 2), (3, 1))] + \
   [fifo(S(c, o, EXTIN=1)) for c, o in ((1, '1,1,1,8,8,8'), (1, '1,8,1,1,8'), (2, '1,1,1,2,3,2'), (2, '1,8,1,1,8'))] + \
   [fifo(S(c, o)) for c in (1, 2) for o in ('1,1,1,2,5,3,1', '1,1,5,1,2,3', '6,1,6,2,7,1,7,3', '6,1,1,3,7,2')] + \
@@ -45,7 +45,7 @@ FR_QUICK = [
   S(1, '1,1,8,1,1,8'), S(2, '1,1,1,8,1,8'), S(2, '1,1,8,1,1,8'), S(1, '4,8,8,8', AVAIL=2), S(1, '1,4,1,2,2,2', AVAIL=2), S(1, '1,4,1,3,2,2', AVAIL=2), S(2, '4,8,8,8,8', AVAIL=3), S(1, '1,4,5,8,8', AVAIL=2),
   S(1, '1,1,8', NESTB=1, NESTS=1),
 ]
-FR_THOROUGH = FR_QUICK + [S(1, o) for o in seqs18(6, 3, 4)] + [S(2, o) for o in seqs123(6, 3, 4)] + [S(2, o) for o in seqs18(5, 3, 3)] + \
+FR_THOROUGH = FR_QUICK + [S(1, o) for o in seqs18(6, 3, 4)] + [S(2, o) for o in seqs123(6, 3, 4)] + [S(2, o) for o in seqs18(6, 3, 4)] + \
   [S(c, o, NESTB=b, NESTS=s) for c, o in ((1, '1,1,8,1,8'), (1, '1,8,1,8'), (2, '1,1,2,1,3'), (2, '1,8,1,8')) for b, s in ((1, 0), (0, 1), (2, 2), (3, 1))] + \
   [S(c, o, AVAIL=a) for c, a in ((1, 2), (1, 3), (2, 3)) for o in ('4,2,2,2,2', '1,4,2,2,2,2', '1,4,3,2,2,2', '4,1,2,2,2', '4,2,1,2,2,2', '1,1,4,2,3,2,2', '4,2,2,5,2,2')]
 FL_QUICK = [S(1, '1,1,8,1', NESTB=1), S(2, '1,1,8,1', NESTB=3), S(0, '1,1', NESTB=1)]
